@@ -254,6 +254,7 @@ func (t *Object) Resolve(field *Field, args map[string]interface{}) (result inte
 }
 
 func (t *Object) metaCheck(rt reflect.Type) (reflect.Type, error) {
+	verifYield("metaCheck")
 	t.mu.Lock()
 	defer t.mu.Unlock()
 	if t.meta == nil {
